@@ -7,7 +7,9 @@ from vf.core import Ctx
 
 def run(ctx: Ctx) -> None:
     from props import queuemodel as qm
+    from props import routemodel
     from props.resp_run import strict_sighting_pass
+    routemodel.run(ctx, 'C12')
     # binding 1: the implementation-shaped model of the two answer queues against the timing contract, exhaustively
     info = qm.check_models(ctx)
     ctx.log('Queue model: %d distinct states, contract invariants hold; defect configuration violates %s; strict sighting '
@@ -31,7 +33,12 @@ def run(ctx: Ctx) -> None:
 
 def replay(ctx: Ctx, path: str) -> None:
     import json
-    sc = json.load(open(path))['replay']['scenario']
+    rep = json.load(open(path))['replay']
+    if 'route_case' in rep:
+        from props import routemodel
+        routemodel.run(ctx, 'C12', [dict(rep['route_case'], id='route-replay')])
+        return
+    sc = rep['scenario']
     from props.resp_run import strict_sighting_pass
     scenarios, traces = run_family(ctx, 'C12', 'c12', 0, 0, [sc])
     strict_sighting_pass(ctx, scenarios, traces)
